@@ -13,6 +13,8 @@ EXPLANATION = (
     "from count inside the crate are exactly the allow-listed ones, each with its discharge."
     ' R03-threshold-window: 0 < THRESHOLD[b] <= 2*2^b, increasing — linear counting must not be used beyond the hand-over window the property tolerates. R03-table-index: the three tables are indexed with self.b - lo.'
 )
+from .common import NEW_WRITERS_NOTE as _NWN
+EXPLANATION = EXPLANATION + _NWN % "03"
 NOT_DECIDED = "table entries perturbed by less than one standard error of the estimator; " + ("every statistical clause of C03 — RMS error, bias, tail frequency, the linear-counting hand-over bump, small-range exactness: "
                "statements about a distribution over hash streams whose determining constants (alpha, ~3000 table values) have no code-shape oracle")
 ASSUMPTIONS = ["registers.len() == 2^b and lo <= b <= hi for every HyperLogLog value (C20 R20-guarded-construction)", "bytecount::count does not panic"]
@@ -22,6 +24,8 @@ D = "hyperloglog::data::"
 
 
 def run(ctx):
+    from .common import check_new_writers
+    check_new_writers(ctx, "R03-new-writers", ['hyperloglog::HyperLogLog'])
     prog = ctx.prog
     ctor = ctx.anchor(HLL + "::with_registers_and_hash")
     count = ctx.anchor(HLL + "::count")
